@@ -9,8 +9,19 @@ def parsePromCall (j : Json) : Except String (String × C17Prom.Args) := do
     match kv with
     | .arr #[.str k, .str v] => pure (k, v)
     | _ => throw "label pair")
-  pure (← getStr j "m", ⟨← getStr j "name", labels, ← getOptStr j "ns", ← getOptStr j "help", ← getOptStr j "unit",
-                        ← getInt j "value"⟩)
+  let value : C17Prom.Val ← match j.getObjVal? "value" with
+    | .ok (.str "nan") => pure .nan
+    | .ok (.str "inf") => pure (.inf false)
+    | .ok (.str "-inf") => pure (.inf true)
+    | .ok v => do pure (.fin (← v.getInt?))
+    | .error e => throw e
+  pure (← getStr j "m", ⟨← getStr j "name", labels, ← getOptStr j "ns", ← getOptStr j "help", ← getOptStr j "unit", value⟩)
+
+def valJson : C17Prom.Val → Json
+  | .fin q => toJson q
+  | .nan => Json.str "nan"
+  | .inf false => Json.str "inf"
+  | .inf true => Json.str "-inf"
 
 def clsName : Extracted.C17Prom.Cls → String
   | .counter => "counter" | .gauge => "gauge" | .histogram => "histogram" | .summary => "summary"
@@ -23,10 +34,10 @@ def familyJson (kf : String × C17Prom.Family) : Json :=
   Json.mkObj [("key", Json.str kf.1), ("cls", Json.str (clsName kf.2.cls)), ("fullName", Json.str kf.2.fullName),
     ("doc", Json.str kf.2.doc), ("labelNames", strs kf.2.labelNames),
     ("children", Json.arr (kf.2.children.map (fun (lv, a) =>
-      Json.arr #[strs lv, toJson a.count, toJson a.sum])).toArray)]
+      Json.arr #[strs lv, toJson a.count, valJson a.sum])).toArray)]
 
 def promRun (calls : List (String × C17Prom.Args)) : Json :=
-  let r := C17Prom.run C17Prom.Plugin.empty calls
+  let r := C17Prom.run (C17Prom.Plugin.fresh Extracted.C17Prom.foreignNames) calls
   let outs := (calls.zip r.2).map (fun (c, o) => match o with
     | none => Json.str "no-such-operation"
     | some o => Json.arr #[Json.str (outcomeName o),
